@@ -555,7 +555,9 @@ impl Matcher for KittyKeyboardMatcher {
             Some(modes) => {
                 let mut modes = numbers_decode(modes, b':');
                 let mode = match modes.next().unwrap_or(Some(1))? {
-                    mode if mode > 1 => KeyMod::from_bits(u32::try_from(mode - 1).ok()?),
+                    // eight modifier bits are defined, larger value is not a modifier
+                    // mask and must not be read as its low bits
+                    mode if mode > 1 => KeyMod::from_bits(u8::try_from(mode - 1).ok()? as u32),
                     _ => KeyMod::EMPTY,
                 };
                 let event_type = modes.next().unwrap_or(Some(0))?;
